@@ -135,7 +135,7 @@ pub fn ok_in(d: &VectorDiff<u32>, len: usize) -> bool {
     }
 }
 
-type BoxStream<I> = Pin<Box<dyn Stream<Item = I>>>;
+pub type BoxStream<I> = Pin<Box<dyn Stream<Item = I>>>;
 
 fn run_generic<I: Item>(head: &[&str], events: &[&str], out: &mut String)
 where
@@ -268,6 +268,9 @@ where
                 first = false;
                 let Some(r) = r else {
                     out.push_str("PANIC");
+                    if src_ok {
+                        out.push_str(" ok:nopanic=0");
+                    }
                     panicked = true;
                     break;
                 };
@@ -396,7 +399,7 @@ where
     }
 }
 
-fn apply_src(src: &mut Vector<u32>, src_ok: &mut bool, d: &VectorDiff<u32>) {
+pub fn apply_src(src: &mut Vector<u32>, src_ok: &mut bool, d: &VectorDiff<u32>) {
     if !ok_in(d, src.len()) {
         // the source stream broke the input guard: the properties promise nothing from here on
         *src_ok = false;
@@ -415,7 +418,7 @@ fn apply_src(src: &mut Vector<u32>, src_ok: &mut bool, d: &VectorDiff<u32>) {
 /// FilterMap's item type is `VectorDiffContainerFamilyMember<Family<S>, U>`, which for U = u32 is
 /// the same type as I; the compiler cannot see that through the associated types, so the boxed
 /// stream is converted through `Any`.
-fn unsafe_cast<I: 'static, S: Stream + 'static>(s: Pin<Box<S>>) -> BoxStream<I>
+pub fn unsafe_cast<I: 'static, S: Stream + 'static>(s: Pin<Box<S>>) -> BoxStream<I>
 where
     S::Item: 'static,
 {
